@@ -17,6 +17,7 @@ for d in "$VERIF"/seeded/$PAT/; do
   [ "$id" = "C19-P" ] && nomiri=""
   [ "$id" = "C19-U" ] && nomiri=""
   [ "$id" = "C19-X" ] && nomiri=""
+  [ "$id" = "C19-Z" ] && nomiri=""
   # C19-I: a narrow window (the 256th match while two threads report); first hit around world
   # 400 000 with the current generator - thorough-tier territory, so give it 150 s here
   if [ "$id" = "C19-I" ]; then export VERIF_BUDGET_S=150 VERIF_WORLDS=2000000; else unset VERIF_BUDGET_S; [ "${VERIF_WORLDS:-}" = "2000000" ] && unset VERIF_WORLDS; fi
